@@ -216,6 +216,11 @@ def shrink_prelude(case):
                 yield dict(case, prelude=case['prelude'][:k] + case['prelude'][k + 1:])
 
 
+class DocumentedCallRejected(Exception):
+    """a public function refused a call made with its documented parameter names and order (progs.call): an
+    observation about the code under test, not a harness error"""
+
+
 def subscribe2(obs, out, what, same=None, abuse=True):
     """Subscribe the SAME observable object twice (what ops.repeat / retry or a second observer do): a cold
     pipeline owes every subscription the same events.  Returns the first Snap; a difference is a failure."""
